@@ -1,10 +1,57 @@
-"""C20 — configuration of the check (deductive tier under construction)."""
+"""C20 — Each input file contributes exactly the HDU and WCS solution the user selected."""
 PROPERTY = "C20"
-LEVEL = "other"
-CONTRACT_MODULES = ["contracts.specfuns"]
-FUNCTIONS = []
+LEVEL = "proof"
+CONTRACT_MODULES = ["contracts.specfuns", "contracts.collection"]
+FUNCTIONS = ["toasty.collection.SimpleFitsCollection._scan_hdus"]
 LEMMAS = []
 SLOW = ()
-TRUSTED_BASE = []
+TRUSTED_BASE = [
+    "pyvc VC generator (python subset semantics, DESIGN.md 2.2); z3/cvc5",
+    "astropy HDUList: integer key returns that HDU, a list key raises; fits.open yields >= 1 HDU",
+]
 ASSUMPTIONS = []
-EXPLANATION = "bounded run-time tier only so far"
+EXPLANATION = "HDU / WCS-key resolution proved for scalar, list and default selections for every number of inputs."
+
+
+def replay(clause, contract, model, seed):
+    """Native replay of a refuted _scan_hdus clause: build small multi-extension FITS files and
+    run the real generator for scalar / list / default selections."""
+    import os
+    import shutil
+    import tempfile
+    import numpy as np
+    from astropy.io import fits
+    from toasty.collection import SimpleFitsCollection
+    d = tempfile.mkdtemp(prefix="verif_c20_replay_")
+    try:
+        paths = []
+        for f in range(2):
+            hdus = [fits.PrimaryHDU()]
+            for k in range(1, 4):
+                hdus.append(fits.ImageHDU(np.full((3 + k, 4 + f), 10 * f + k, dtype=np.float32)))
+            p = os.path.join(d, "f%d.fits" % f)
+            fits.HDUList(hdus).writeto(p)
+            paths.append(p)
+        for sel in ([1, 3], [2, 2], 2, None):
+            for key in (" ", [" ", " "], None):
+                coll = SimpleFitsCollection(paths, hdu_index=sel, wcs_key=key)
+                try:
+                    items = list(coll._scan_hdus())
+                except Exception as e:   # noqa
+                    return {"clause": "no_unexpected_raise/%s" % type(e).__name__,
+                            "inputs": {"hdu_index": sel, "wcs_key": key, "n_paths": 2, "hdu_index_kind": kind(sel)},
+                            "observed": "raised %r" % (e,)}
+                for i, (pth, idx, hdu, wk) in enumerate(items):
+                    want = sel[i] if isinstance(sel, list) else (sel if sel is not None else 1)
+                    val = float(hdu.data.flat[0]) if hdu.data is not None else None
+                    if pth != paths[i] or idx != want or val != 10 * i + want:
+                        return {"clause": "yields_each/hdu_is_that_hdu_of_that_file",
+                                "inputs": {"hdu_index": sel, "wcs_key": key, "n_paths": 2, "hdu_index_kind": kind(sel)},
+                                "observed": "item %d = (%s, %s, first pixel %s)" % (i, pth, idx, val)}
+        return None
+    finally:
+        shutil.rmtree(d, ignore_errors=True)
+
+
+def kind(sel):
+    return "list" if isinstance(sel, list) else ("none" if sel is None else "scalar")
